@@ -650,7 +650,7 @@ func (e *Exec) makeSlice(fr *Frame, in *ssa.MakeSlice) Value {
 	ln, ok1 := e.constInt(e.get(fr, in.Len))
 	cp, ok2 := e.constInt(e.get(fr, in.Cap))
 	if !ok1 || !ok2 {
-		panic(unsupported("make slice with symbolic size at " + e.pos(in)))
+		panic(unsupported("make slice with symbolic size at " + e.pos(in) + " len=" + describe(e.get(fr, in.Len)) + " stack=" + e.stack(fr)))
 	}
 	if ln < 0 || cp < ln {
 		e.goPanic(fr.th, fr, in, "makeslice: len out of range")
@@ -680,3 +680,11 @@ func (e *Exec) newSlice(et types.Type, ln, cp int) SliceV {
 }
 
 var _ = token.NoPos
+
+func (e *Exec) stack(fr *Frame) string {
+	s := ""
+	for f, i := fr, 0; f != nil && i < 8; f, i = f.caller, i+1 {
+		s += f.fn.Name() + " < "
+	}
+	return s
+}
